@@ -27,7 +27,7 @@ def op_names(cls):
 # (format / explicit-id / max_order ... describe ordinary use and would only multiply keys)
 KEY_TAGS = frozenset({
     "none-member", "none-node", "empty-members", "empty-first", "bad-direction", "not-a-sequence",
-    "missing-id", "dup-id", "idx0", "non-member", "tuple-id",
+    "missing-id", "dup-id", "idx0", "non-member", "tuple-id", "nan-member",
 })
 
 
@@ -141,6 +141,7 @@ def invariant_episode(mon, pid, cls, inv, kind, rng, max_ops=25, per_op=None):
     hostile = kind != "steered"
     avoid = steer_tags(pid) if kind == "steered" else frozenset()
     gen = ops.GENS[cls](rng, hostile=hostile, avoid=avoid)
+    gen.nan_ok = pid == "C01" and hostile
     hist = []
     if kind == "start":
         how, net = start_state(rng, cls, gen)
